@@ -377,6 +377,43 @@ func checkC04(c C04Case, r *Rec) *Violation {
 		}
 		log.Reset()
 	}
+	// a nil value: one bound variable is handed over as nil by a fetcher that reports everything as
+	// available. nil is not a value of a listed type and what an operator makes of it is not modelled;
+	// but with everything available TryEval and Eval agree (same value, or both an error), and so do
+	// TryEvalBool and EvalBool - on the program itself and on the program that just returns that variable
+	if bound := boundNames(u, c.Tree); len(bound) > 0 && !c.Raw {
+		nilVar := bound[int(hash64(src)%uint64(len(bound)))]
+		vars := u.Bound()
+		vars[nilVar] = nil
+		progs := []string{"(if true " + nilVar + " " + nilVar + ")"}
+		if u.Var(nilVar).Ty != m.TBool {
+			// (a boolean variable holding nil is an ill-typed and/or operand - outside the domain of §2.9,
+			// and the open finding C18-andor-nonbool-before-last makes Eval and TryEval differ there)
+			progs = append(progs, src)
+		}
+		for _, psrc := range progs {
+			for _, mask := range []int{0, 15} {
+				cc, _ := NewConfig(u, &Log{}, Build{Mask: mask})
+				e, co := SafeCompile(cc, psrc)
+				if co.Panic != nil || co.Err != nil {
+					continue // (a renamed variable that the prefix parser reads as something else)
+				}
+				mk := func() *eval.Ctx { return (&Fetcher{Vars: vars, Fail: u.Fail(), Log: &Log{}}).Ctx() }
+				oe := Safe(func() (eval.Value, error) { return e.Eval(mk()) })
+				ot := Safe(func() (eval.Value, error) { return e.TryEval(mk()) })
+				if oe.Panic == nil && ot.Panic == nil && !SameOutcomeLoose(oe, ot) {
+					return Violf("C04: every variable is available (one of them, %q, holds nil), yet TryEval and Eval disagree\nconfig=%s src=%s\nTryEval=%v\nEval=%v", nilVar, maskName(mask), psrc, ot, oe)
+				}
+				var be, bt bool
+				obe := Safe(func() (eval.Value, error) { b, err := e.EvalBool(mk()); be = b; return b, err })
+				obt := Safe(func() (eval.Value, error) { b, err := e.TryEvalBool(mk()); bt = b; return b, err })
+				if obe.Panic == nil && obt.Panic == nil && ((obe.Err == nil) != (obt.Err == nil) || (obe.Err == nil && be != bt)) {
+					return Violf("C04: every variable is available (one of them, %q, holds nil), yet TryEvalBool and EvalBool disagree\nconfig=%s src=%s\nTryEvalBool=%v\nEvalBool=%v", nilVar, maskName(mask), psrc, obt, obe)
+				}
+			}
+		}
+		r.Class("a-variable-holding-nil:TryEval-vs-Eval")
+	}
 	// every split: a program with up to three variables, all of them bound, is tried under ALL
 	// available/unavailable splits (two option subsets); every definite answer is checked against Eval
 	// under the full product of the per-type completion domains (at most 64 rows are built)
@@ -487,3 +524,14 @@ var propC04 = Prop[C04Case]{
 
 func TestC04(t *testing.T)       { Run(t, propC04) }
 func TestC04Replay(t *testing.T) { Replay(t, propC04) }
+
+// boundNames: the tree's variables that the universe binds to a value, sorted.
+func boundNames(u *Universe, tree *m.Node) []string {
+	var out []string
+	for _, n := range tree.VarNames() {
+		if vd := u.Var(n); vd != nil && vd.Mode == 0 {
+			out = append(out, n)
+		}
+	}
+	return out
+}
